@@ -6,8 +6,9 @@ The torch.fx graph is built node by node (H.fx_graph) with the sub-module names 
 (`<block>.sn_branches.<i>[.<j>]`, `<block>.sn_combiner`); the graph mutators used by export_graph (replace_all_uses_with, erase_node,
 eliminate_dead_code, delete_all_unused_submodules) are assumed library contracts (pyvc/torchlib.py), compared with the real torch.fx on
 every run by the cross-check.  Selection coefficients, every weight and the input are symbolic; the topologies are ENUMERATED
-(this is a bounded stand-in in the topology dimension: 2..3 branches made of one layer, a two-layer sequence or an identity, one
-block, block invoked once) - not a proof over all networks.
+(this is a bounded stand-in in the topology dimension: 1..3 choice blocks of 2..3 and 12 branches made of one layer, a two-layer
+sequence or an identity, a block invoked twice) - not a proof over all networks.  How a SuperNetModule appears in a traced graph is an
+assumption HERE; contracts/whole_supernet.py removes it by tracing real SuperNetModule networks through the tracer contract.
 """
 import torch
 import torch.nn as nn
